@@ -27,6 +27,12 @@
 
 #include <libast_internal.h>
 
+/* The text of a string object as a C string:  "" if there is no object
+   or the object has no buffer yet (SPIF_USTR_STR() yields NULL then). */
+#define SPIF_USTR_TEXT(obj)  ((const spif_charptr_t) ((SPIF_USTR_ISNULL(obj) || (SPIF_USTR(obj)->s == (spif_charptr_t) NULL)) \
+                                                       ? ((spif_charptr_t) "") \
+                                                       : (SPIF_USTR(obj)->s)))
+
 /* *INDENT-OFF* */
 static SPIF_CONST_TYPE(strclass) s_class = {
     {
@@ -196,6 +202,7 @@ spif_ustr_init_from_buff(spif_ustr_t self, spif_charptr_t buff, spif_ustridx_t s
 {
     ASSERT_RVAL(!SPIF_USTR_ISNULL(self), FALSE);
     /* ***NOT NEEDED*** spif_obj_init(SPIF_OBJ(self)); */
+    REQUIRE_RVAL(size >= 0, FALSE);
     spif_obj_set_class(SPIF_OBJ(self), SPIF_CLASS_VAR(ustr));
     self->size = size;
     if (buff != (spif_charptr_t) NULL) {
@@ -361,9 +368,9 @@ spif_ustr_dup(spif_ustr_t self)
     ASSERT_RVAL(!SPIF_USTR_ISNULL(self), (spif_ustr_t) NULL);
     tmp = SPIF_ALLOC(ustr);
     memcpy(tmp, self, SPIF_SIZEOF_TYPE(ustr));
-    tmp->s = (spif_charptr_t) STRDUP((const char *) SPIF_USTR_STR(self));
+    tmp->s = (spif_charptr_t) STRDUP((const char *) SPIF_USTR_TEXT(self));
     tmp->len = self->len;
-    tmp->size = self->size;
+    tmp->size = self->len + 1;
     return tmp;
 }
 
@@ -380,9 +387,15 @@ spif_ustr_append(spif_ustr_t self, spif_ustr_t other)
     ASSERT_RVAL(!SPIF_USTR_ISNULL(self), FALSE);
     REQUIRE_RVAL(!SPIF_USTR_ISNULL(other), FALSE);
     if (other->size && other->len) {
+        if (!self->size) {
+            /* Still empty (no buffer yet):  start from a valid empty string. */
+            self->size = 1;
+            self->s = (spif_charptr_t) MALLOC(self->size);
+            self->s[0] = 0;
+        }
         self->size += other->size - 1;
         self->s = (spif_charptr_t) REALLOC(self->s, self->size);
-        memcpy(self->s + self->len, SPIF_USTR_STR(other), other->len + 1);
+        memcpy(self->s + self->len, SPIF_USTR_TEXT(other), other->len + 1);
         self->len += other->len;
     }
     return TRUE;
@@ -392,6 +405,12 @@ spif_bool_t
 spif_ustr_append_char(spif_ustr_t self, spif_char_t c)
 {
     ASSERT_RVAL(!SPIF_USTR_ISNULL(self), FALSE);
+    if (!self->size) {
+        /* Still empty (no buffer yet):  start from a valid empty string. */
+        self->size = 1;
+        self->s = (spif_charptr_t) MALLOC(self->size);
+        self->s[0] = 0;
+    }
     self->len++;
     if (self->size <= self->len) {
         self->size++;
@@ -411,6 +430,12 @@ spif_ustr_append_from_ptr(spif_ustr_t self, spif_charptr_t other)
     REQUIRE_RVAL((other != (spif_charptr_t) NULL), FALSE);
     len = strlen((const char *) other);
     if (len) {
+        if (!self->size) {
+            /* Still empty (no buffer yet):  start from a valid empty string. */
+            self->size = 1;
+            self->s = (spif_charptr_t) MALLOC(self->size);
+            self->s[0] = 0;
+        }
         self->size += len;
         self->s = (spif_charptr_t) REALLOC(self->s, self->size);
         memcpy(self->s + self->len, other, len + 1);
@@ -425,7 +450,7 @@ spif_ustr_casecmp(spif_ustr_t self, spif_ustr_t other)
     int c;
 
     SPIF_OBJ_COMP_CHECK_NULL(self, other);
-    c = strcasecmp((char *) SPIF_USTR_STR(self), (char *) SPIF_USTR_STR(other));
+    c = strcasecmp((char *) SPIF_USTR_TEXT(self), (char *) SPIF_USTR_TEXT(other));
     return SPIF_CMP_FROM_INT(c);
 }
 
@@ -435,7 +460,7 @@ spif_ustr_casecmp_with_ptr(spif_ustr_t self, spif_charptr_t other)
     int c;
 
     SPIF_OBJ_COMP_CHECK_NULL(self, other);
-    c = strcasecmp((char *) SPIF_USTR_STR(self), (char *) other);
+    c = strcasecmp((char *) SPIF_USTR_TEXT(self), (char *) other);
     return SPIF_CMP_FROM_INT(c);
 }
 
@@ -443,8 +468,10 @@ spif_bool_t
 spif_ustr_clear(spif_ustr_t self, spif_char_t c)
 {
     ASSERT_RVAL(!SPIF_USTR_ISNULL(self), FALSE);
-    memset(self->s, c, self->size);
-    self->s[self->len] = 0;
+    if (self->size) {
+        memset(self->s, c, self->size);
+        self->s[self->len] = 0;
+    }
     return TRUE;
 }
 
@@ -454,7 +481,7 @@ spif_ustr_cmp(spif_ustr_t self, spif_ustr_t other)
     int c;
 
     SPIF_OBJ_COMP_CHECK_NULL(self, other);
-    c = strcmp((char *) SPIF_USTR_STR(self), (char *) SPIF_USTR_STR(other));
+    c = strcmp((char *) SPIF_USTR_TEXT(self), (char *) SPIF_USTR_TEXT(other));
     return SPIF_CMP_FROM_INT(c);
 }
 
@@ -464,7 +491,7 @@ spif_ustr_cmp_with_ptr(spif_ustr_t self, spif_charptr_t other)
     int c;
 
     SPIF_OBJ_COMP_CHECK_NULL(self, other);
-    c = strcmp((char *) SPIF_USTR_STR(self), (char *) other);
+    c = strcmp((char *) SPIF_USTR_TEXT(self), (char *) other);
     return SPIF_CMP_FROM_INT(c);
 }
 
@@ -474,7 +501,7 @@ spif_ustr_downcase(spif_ustr_t self)
     spif_charptr_t tmp;
 
     ASSERT_RVAL(!SPIF_USTR_ISNULL(self), FALSE);
-    for (tmp = self->s; *tmp; tmp++) {
+    for (tmp = self->s; tmp && *tmp; tmp++) {
         *tmp = tolower(*tmp);
     }
     return TRUE;
@@ -487,10 +514,10 @@ spif_ustr_find(spif_ustr_t self, spif_ustr_t other)
 
     ASSERT_RVAL(!SPIF_USTR_ISNULL(self), ((spif_stridx_t) -1));
     REQUIRE_RVAL(!SPIF_USTR_ISNULL(other), ((spif_stridx_t) -1));
-    tmp = strstr((const char *) SPIF_USTR_STR(self),
-                 (const char *) SPIF_USTR_STR(other));
+    tmp = strstr((const char *) SPIF_USTR_TEXT(self),
+                 (const char *) SPIF_USTR_TEXT(other));
     if (tmp) {
-        return (spif_stridx_t) ((spif_long_t) tmp - (spif_long_t) (SPIF_USTR_STR(self)));
+        return (spif_stridx_t) ((spif_long_t) tmp - (spif_long_t) (SPIF_USTR_TEXT(self)));
     } else {
         return (spif_stridx_t) (self->len);
     }
@@ -503,10 +530,10 @@ spif_ustr_find_from_ptr(spif_ustr_t self, spif_charptr_t other)
 
     ASSERT_RVAL(!SPIF_USTR_ISNULL(self), ((spif_stridx_t) -1));
     REQUIRE_RVAL((other != (spif_charptr_t) NULL), ((spif_stridx_t) -1));
-    tmp = strstr((const char *) SPIF_USTR_STR(self),
+    tmp = strstr((const char *) SPIF_USTR_TEXT(self),
                  (const char *) other);
     if (tmp) {
-        return (spif_stridx_t) ((spif_long_t) tmp - (spif_long_t) (SPIF_USTR_STR(self)));
+        return (spif_stridx_t) ((spif_long_t) tmp - (spif_long_t) (SPIF_USTR_TEXT(self)));
     } else {
         return (spif_stridx_t) (self->len);
     }
@@ -518,9 +545,9 @@ spif_ustr_index(spif_ustr_t self, spif_char_t c)
     char *tmp;
 
     ASSERT_RVAL(!SPIF_USTR_ISNULL(self), ((spif_stridx_t) -1));
-    tmp = index((const char *) SPIF_USTR_STR(self), c);
+    tmp = index((const char *) SPIF_USTR_TEXT(self), c);
     if (tmp) {
-        return (spif_stridx_t) ((spif_long_t) tmp - (spif_long_t) (SPIF_USTR_STR(self)));
+        return (spif_stridx_t) ((spif_long_t) tmp - (spif_long_t) (SPIF_USTR_TEXT(self)));
     } else {
         return (spif_stridx_t) (self->len);
     }
@@ -532,7 +559,7 @@ spif_ustr_ncasecmp(spif_ustr_t self, spif_ustr_t other, spif_ustridx_t cnt)
     int c;
 
     SPIF_OBJ_COMP_CHECK_NULL(self, other);
-    c = strncasecmp((char *) SPIF_USTR_STR(self), (char *) SPIF_USTR_STR(other), cnt);
+    c = strncasecmp((char *) SPIF_USTR_TEXT(self), (char *) SPIF_USTR_TEXT(other), cnt);
     return SPIF_CMP_FROM_INT(c);
 }
 
@@ -542,7 +569,7 @@ spif_ustr_ncasecmp_with_ptr(spif_ustr_t self, spif_charptr_t other, spif_ustridx
     int c;
 
     SPIF_OBJ_COMP_CHECK_NULL(self, other);
-    c = strncasecmp((char *) SPIF_USTR_STR(self), (char *) other, cnt);
+    c = strncasecmp((char *) SPIF_USTR_TEXT(self), (char *) other, cnt);
     return SPIF_CMP_FROM_INT(c);
 }
 
@@ -552,7 +579,7 @@ spif_ustr_ncmp(spif_ustr_t self, spif_ustr_t other, spif_ustridx_t cnt)
     int c;
 
     SPIF_OBJ_COMP_CHECK_NULL(self, other);
-    c = strncmp((char *) SPIF_USTR_STR(self), (char *) SPIF_USTR_STR(other), cnt);
+    c = strncmp((char *) SPIF_USTR_TEXT(self), (char *) SPIF_USTR_TEXT(other), cnt);
     return SPIF_CMP_FROM_INT(c);
 }
 
@@ -562,7 +589,7 @@ spif_ustr_ncmp_with_ptr(spif_ustr_t self, spif_charptr_t other, spif_ustridx_t c
     int c;
 
     SPIF_OBJ_COMP_CHECK_NULL(self, other);
-    c = strncmp((char *) SPIF_USTR_STR(self), (char *) other, cnt);
+    c = strncmp((char *) SPIF_USTR_TEXT(self), (char *) other, cnt);
     return SPIF_CMP_FROM_INT(c);
 }
 
@@ -572,10 +599,16 @@ spif_ustr_prepend(spif_ustr_t self, spif_ustr_t other)
     ASSERT_RVAL(!SPIF_USTR_ISNULL(self), FALSE);
     REQUIRE_RVAL(!SPIF_USTR_ISNULL(other), FALSE);
     if (other->size && other->len) {
+        if (!self->size) {
+            /* Still empty (no buffer yet):  start from a valid empty string. */
+            self->size = 1;
+            self->s = (spif_charptr_t) MALLOC(self->size);
+            self->s[0] = 0;
+        }
         self->size += other->size - 1;
         self->s = (spif_charptr_t) REALLOC(self->s, self->size);
         memmove(self->s + other->len, self->s, self->len + 1);
-        memcpy(self->s, SPIF_USTR_STR(other), other->len);
+        memcpy(self->s, SPIF_USTR_TEXT(other), other->len);
         self->len += other->len;
     }
     return TRUE;
@@ -585,12 +618,19 @@ spif_bool_t
 spif_ustr_prepend_char(spif_ustr_t self, spif_char_t c)
 {
     ASSERT_RVAL(!SPIF_USTR_ISNULL(self), FALSE);
+    if (!self->size) {
+        /* Still empty (no buffer yet):  start from a valid empty string. */
+        self->size = 1;
+        self->s = (spif_charptr_t) MALLOC(self->size);
+        self->s[0] = 0;
+    }
     self->len++;
     if (self->size <= self->len) {
         self->size++;
         self->s = (spif_charptr_t) REALLOC(self->s, self->size);
     }
-    memmove(self->s + 1, self->s, self->len + 1);
+    /* Move the old text and its terminator (the old length plus one). */
+    memmove(self->s + 1, self->s, self->len);
     self->s[0] = (spif_uchar_t) c;
     return TRUE;
 }
@@ -604,6 +644,12 @@ spif_ustr_prepend_from_ptr(spif_ustr_t self, spif_charptr_t other)
     REQUIRE_RVAL((other != (spif_charptr_t) NULL), FALSE);
     len = strlen((const char *) other);
     if (len) {
+        if (!self->size) {
+            /* Still empty (no buffer yet):  start from a valid empty string. */
+            self->size = 1;
+            self->s = (spif_charptr_t) MALLOC(self->size);
+            self->s[0] = 0;
+        }
         self->size += len;
         self->s = (spif_charptr_t) REALLOC(self->s, self->size);
         memmove(self->s + len, self->s, self->len + 1);
@@ -626,9 +672,9 @@ spif_ustr_rindex(spif_ustr_t self, spif_char_t c)
     char *tmp;
 
     ASSERT_RVAL(!SPIF_USTR_ISNULL(self), ((spif_stridx_t) -1));
-    tmp = rindex((const char *) SPIF_USTR_STR(self), c);
+    tmp = rindex((const char *) SPIF_USTR_TEXT(self), c);
     if (tmp) {
-        return (spif_stridx_t) ((spif_long_t) tmp - (spif_long_t) (SPIF_USTR_STR(self)));
+        return (spif_stridx_t) ((spif_long_t) tmp - (spif_long_t) (SPIF_USTR_TEXT(self)));
     } else {
         return (spif_stridx_t) (self->len);
     }
@@ -767,7 +813,7 @@ spif_ustr_substr(spif_ustr_t self, spif_ustridx_t idx, spif_ustridx_t cnt)
     }
     REQUIRE_RVAL(cnt >= 0, (spif_ustr_t) NULL);
     UPPER_BOUND(cnt, self->len - idx);
-    return spif_ustr_new_from_buff(SPIF_USTR_STR(self) + idx, cnt);
+    return spif_ustr_new_from_buff(SPIF_USTR_TEXT(self) + idx, cnt);
 }
 
 spif_charptr_t
@@ -788,7 +834,7 @@ spif_ustr_substr_to_ptr(spif_ustr_t self, spif_ustridx_t idx, spif_ustridx_t cnt
     UPPER_BOUND(cnt, self->len - idx);
 
     newstr = (spif_charptr_t) MALLOC(cnt + 1);
-    memcpy(newstr, SPIF_USTR_STR(self) + idx, cnt);
+    memcpy(newstr, SPIF_USTR_TEXT(self) + idx, cnt);
     newstr[cnt] = 0;
     return newstr;
 }
@@ -797,14 +843,14 @@ double
 spif_ustr_to_float(spif_ustr_t self)
 {
     ASSERT_RVAL(!SPIF_USTR_ISNULL(self), (double) NAN);
-    return (double) (strtod((const char *)SPIF_USTR_STR(self), (char **) NULL));
+    return (double) (strtod((const char *)SPIF_USTR_TEXT(self), (char **) NULL));
 }
 
 size_t
 spif_ustr_to_num(spif_ustr_t self, int base)
 {
     ASSERT_RVAL(!SPIF_USTR_ISNULL(self), ((size_t) -1));
-    return (size_t) (strtoul((const char *) SPIF_USTR_STR(self), (char **) NULL, base));
+    return (size_t) (strtoul((const char *) SPIF_USTR_TEXT(self), (char **) NULL, base));
 }
 
 spif_bool_t
@@ -813,6 +859,10 @@ spif_ustr_trim(spif_ustr_t self)
     spif_charptr_t start, end;
 
     ASSERT_RVAL(!SPIF_USTR_ISNULL(self), FALSE);
+    if (!self->len) {
+        /* Nothing to trim (and possibly no buffer at all). */
+        return TRUE;
+    }
     start = self->s;
     end = self->s + self->len - 1;
     for (; isspace((spif_uchar_t) (*start)) && (start < end); start++);
@@ -834,7 +884,7 @@ spif_ustr_upcase(spif_ustr_t self)
     spif_charptr_t tmp;
 
     ASSERT_RVAL(!SPIF_USTR_ISNULL(self), FALSE);
-    for (tmp = self->s; *tmp; tmp++) {
+    for (tmp = self->s; tmp && *tmp; tmp++) {
         *tmp = toupper(*tmp);
     }
     return TRUE;
